@@ -12,6 +12,8 @@ from .rules import parser as ps
 from .rules import values as va
 from .rules import ties as ti
 from .rules import gregory as gr
+from .rules import meekrules as mk
+from .rules import quota as qt
 
 NOT_BEHAVIOUR = 'decides the listed structural clauses (necessary conditions); does not decide the behaviour itself'
 
@@ -178,6 +180,43 @@ prop('C10',
      'order of ballot lines nor the split of identical ballots into lines can change a sum. ' + NOT_BEHAVIOUR,
      ['multiplier applied last (R19)', 'order-free ballot loops (R20)', 'exact addition (R21)'],
      ['equality of whole records under re-presentation (metamorphic)', 'tokenizer layout/comment/nickname behaviour'])
+prop('C08',
+     [('R10', mk.r10_residual_pairing), ('R11', mk.r11_keep_factors), ('R12', mk.r12_iteration_exits),
+      ('R14', qt.r14_elect_before_exclude), ('R04', lp.r04_loops), ('R21', va.r21_scale_rounding)],
+     'Static analysis of meek.py and meek_prf.py: in every block of the distribution loops the expressions credited to a '
+     'tally are exactly those debited from the ballot residual, residuals start at the multiplier and are summed once per '
+     'ballot, tallies and the round residual are zeroed first (with exact add/sub, R21, votes + residual = ballots); keep '
+     'factors are written only as 1 up front, 0 with a defeat, or kf x quota / vote rounded up twice for elected '
+     'candidates; iterations end only on election, surplus <(=) omega, logged stable state or a non-empty sure-loser batch; '
+     'exclusions only after such an end without election; the iteration has a decreasing variant (R04). ' + NOT_BEHAVIOUR,
+     ['votes + residual bookkeeping is exact by construction (R10 + R21)', 'keep-factor writers (R11)',
+      'iteration exits and their logging (R12)', 'exclusions only after an iteration end (R12, R14)', 'termination variant (R04)'],
+     ['0 < kf <= 1 for elected candidates and non-negativity of tallies: numeric'])
+
+prop('C04',
+     [('R13', qt.r13_quota), ('R14', qt.r14_elect_before_exclude), ('R02', cf.r02_elect_sites), ('R12', mk.r12_iteration_exits)],
+     'Static analysis of every rule: each quota expression, canonicalised, equals the form the property prescribes for the '
+     'branch it is on (exact / truncated + one unit / integer floor + 1 / Meek from the votes still credited / QPQ); the '
+     'election comparison is > exactly on exact branches and >= otherwise; epsilon is read only where the arithmetic has '
+     'one; in every round an election step over all hopefuls precedes every exclusion with no tally change in between; '
+     'nobody is elected below quota except under a seat guard. ' + NOT_BEHAVIOUR,
+     ['quota forms per branch (R13a)', 'comparison consistent with exactness (R13b)', 'epsilon guard (R13c)',
+      'election step precedes exclusion (R14)', 'elect sites justified (R02)', 'Meek recomputes votes and quota (R12)'],
+     ['numeric equality of the reported quota with the formula\'s value',
+      'the Minneapolis defeat-before-election step is taken as the listed exception of R14'])
+
+prop('C02',
+     [('R07', gr.r07_transfer_once), ('R08', gr.r08_reset_pairing), ('R09', gr.r09_reweighting), ('R10', mk.r10_residual_pairing),
+      ('R19', gr.r19_multiplier_last), ('R21', va.r21_scale_rounding), ('R22', va.r22_closure)],
+     'Static analysis of the bookkeeping shape that conservation rests on: a transferred ballot is credited exactly once '
+     '(candidate or non-transferable total); a tally is reset only after all its ballots were passed on; transfer values '
+     'are old x surplus / tally rounded down (a transfer cannot create votes); Meek credits and residual debits are the same '
+     'expressions; the multiplier is applied after rounding; add/sub are exact and products floor once (R21); `//` is not '
+     'applied to values where rational arithmetic is possible (R22c). ' + NOT_BEHAVIOUR,
+     ['credit exactly once (R07)', 'reset pairing (R08)', 'transfer values rounded down (R09 + R21)', 'Meek residual pairing (R10)',
+      'multiplier last (R19)', 'no value // value under rational (R22c)'],
+     ['the inequality itself ("short by at most two units per ballot per transfer"), non-negativity, and the QPQ identity '
+      'sum of weights = number elected: statements about runtime numbers'])
 
 LEVEL_TEXT = ('Static analysis of the source of /repo (never executed): obligations are enumerated from the '
               'repository\'s own entities (rule classes, call sites, stores, loops, class attributes) and each is '
